@@ -105,6 +105,8 @@ class KaniCheck:
         self.extra_files = extra_files or {}
         self.dir = None
         self.compile_failures = []
+        self.rejected_as_expected = []   # (shape, diagnostics) for expect_reject shapes
+        self.accepted_unexpectedly = []  # expect_reject shapes that compiled
         self.results = []
         self.build_s = 0.0
         self.verify_s = 0.0
@@ -164,6 +166,10 @@ class KaniCheck:
                 f.write(out)
             if code == 0:
                 self.build_s = time.time() - t0
+                for s in list(self.shapes):
+                    if s.expect_reject:
+                        self.accepted_unexpectedly.append(s)
+                        self.shapes.remove(s)
                 return True
             if code == "timeout":
                 self.inconclusive.append("harness crate build timed out")
@@ -184,7 +190,10 @@ class KaniCheck:
                 break
             for s in list(self.shapes):
                 if s.name in by_shape:
-                    self.compile_failures.append(CompileFailure(s, by_shape[s.name]))
+                    if s.expect_reject:
+                        self.rejected_as_expected.append((s, by_shape[s.name]))
+                    else:
+                        self.compile_failures.append(CompileFailure(s, by_shape[s.name]))
                     self.shapes.remove(s)
             log("[%s] build round %d: %d shape(s) do not compile, rebuilding without them" % (
                 self.prop, rnd + 1, len(by_shape)))
